@@ -7,7 +7,7 @@ import vlib, e2e
 
 PKG_ORDER = [("example.com/corp/util", ["util.go"]), ("example.com/corp/lib", ["lib.go"]), ("example.com/corp/shapes", ["shapes.go"]),
              ("example.com/corp/dotted.name/pkg", ["pkg.go"]), ("example.com/corp/iface", ["iface.go"]), ("example.com/corp/gen", ["gen.go"]),
-             ("example.com/corp", ["main.go"])]
+             ("example.com/corp", ["anonconv.go", "main.go"])]
 
 
 def _tree_hash(d):
@@ -23,7 +23,7 @@ def _tree_hash(d):
 
 def corpus_build(garble, garble_flags=(), env_extra=None, name="mod1"):
     src = os.path.join(vlib.VERIF, "corpus", name)
-    key = hashlib.sha256((e2e.sha256_file(garble) + _tree_hash(src) + _tree_hash(os.path.join(vlib.VERIF, "harness", "objmap")) + "v2" + repr(sorted(garble_flags)) + repr(sorted((env_extra or {}).items()))).encode()).hexdigest()[:24]
+    key = hashlib.sha256((e2e.sha256_file(garble) + _tree_hash(src) + _tree_hash(os.path.join(vlib.VERIF, "harness", "objmap")) + "v3" + repr(PKG_ORDER) + repr(sorted(garble_flags)) + repr(sorted((env_extra or {}).items()))).encode()).hexdigest()[:24]
     root = os.path.join(vlib.CACHE, "corpus")
     os.makedirs(root, exist_ok=True)
     out = os.path.join(root, key)
